@@ -280,7 +280,10 @@ class SymStr:
         out = []
         for q in self.p:
             if isinstance(q, Opt):
-                raise Unmodelled("optional character reached an operation other than Pattern.sub")
+                # an optional slot reached an operation other than Pattern.sub: fork on its presence
+                if ctx.choose(q.present):
+                    out.append(q.ch)
+                continue
             if isinstance(q, Dec) and q.wlo == q.whi:
                 b = ival(q.v)
                 if q.wlo == 1:
@@ -304,7 +307,7 @@ class SymStr:
         out = []
         for q in self.p:
             if isinstance(q, Dec) and q.wlo != q.whi:
-                ws = list(range(q.wlo, q.whi + 1))
+                ws = list(range(q.whi, q.wlo - 1, -1))  # widest first: long expansions are the rare, interesting inputs
                 w = q.width()
                 i = ctx.choose_n([w == k for k in ws])
                 out.append(Dec(q.v, ws[i], ws[i]))
@@ -487,8 +490,40 @@ class SymStr:
     def index(self, *a):
         raise Unmodelled("symbolic str.index")
 
+    def _pred(self, name):
+        from sx import models
+
+        return models.model_str_pred(self, name)
+
     def isdigit(self):
-        raise Unmodelled("symbolic str.isdigit")
+        return self._pred("isdigit")
+
+    def isalnum(self):
+        return self._pred("isalnum")
+
+    def isalpha(self):
+        return self._pred("isalpha")
+
+    def isdecimal(self):
+        return self._pred("isdecimal")
+
+    def isnumeric(self):
+        return self._pred("isnumeric")
+
+    def isspace(self):
+        return self._pred("isspace")
+
+    def isascii(self):
+        return self._pred("isascii")
+
+    def isprintable(self):
+        return self._pred("isprintable")
+
+    def islower(self):
+        return self._pred("islower")
+
+    def isupper(self):
+        return self._pred("isupper")
 
     def join(self, it):
         from sx import models
